@@ -38,12 +38,36 @@ func HarnessC05Steps(n int) {
 	X := verifLetter("ref")
 	where := verifChoose("where", n+2) // step index, n = job outputs, n+1 = environment.url
 	ref := s("echo ${{ steps." + X + ".outputs.o }}")
+	// which field of the step carries the reference
+	field := 0
+	if where < n {
+		field = verifChoose("field", 7)
+	}
+	if field >= 4 {
+		// bool / number positions take a whole-value placeholder only
+		ref = s("${{ steps." + X + ".outputs.o }}")
+	}
 	var steps []*yaml.Node
 	for j := 0; j < n; j++ {
 		has[j] = verifChoose("hasid"+string(rune('0'+j)), 2) == 1
 		kv := []*yaml.Node{s("run"), s("echo")}
 		if j == where {
-			kv = []*yaml.Node{s("run"), ref}
+			switch field {
+			case 0:
+				kv = []*yaml.Node{s("run"), ref}
+			case 1:
+				kv = append(kv, s("name"), ref)
+			case 2:
+				kv = append(kv, s("if"), ref)
+			case 3:
+				kv = append(kv, s("env"), yMap(s("V"), ref))
+			case 4:
+				kv = append(kv, s("continue-on-error"), ref)
+			case 5:
+				kv = append(kv, s("timeout-minutes"), ref)
+			default:
+				kv = append(kv, s("working-directory"), ref)
+			}
 		}
 		if has[j] {
 			ids[j] = verifLetter("id" + string(rune('0'+j)))
